@@ -383,3 +383,23 @@ func VerifC15ClientPending(s *Session) bool { return len(s.send) > 0 || s.peek !
 
 // VerifC15ClientNext is Session.next(false): the next packet (container) the client sends.
 func VerifC15ClientNext(s *Session) *com.Packet { return s.next(false) }
+
+// FeedPacket hands an arbitrary Packet to the Channel reader (marshaled as it is) and returns once it
+// was processed; false: the reader has stopped (conn.stop was run).
+func (h *VerifC15Chan) FeedPacket(n *com.Packet) bool {
+	var b bytes.Buffer
+	if err := n.Marshal(&b); err != nil {
+		panic(err)
+	}
+	select {
+	case h.x.in <- b.Bytes():
+	case <-h.done:
+		return false
+	}
+	select {
+	case h.x.in <- nil:
+		return true
+	case <-h.done:
+		return false
+	}
+}
